@@ -8,6 +8,7 @@ CFG = dict(
     proof_targets=["Props/C11.vo"],
     props="Props/C11.v",
     harness_timeout=3000,
+    search_seeds=[101, 202],
     trusted=COMMON_TRUSTED + ["compiled Go (whole program; histories rendered with function variables) and yaegi's own evaluation in one piece as references",
                               "hand-written model Session/Model.v of the session mechanics (interp/ast.go parse, interp/gta.go, interp/cfg.go funcDecl/genGlobalVarDecl, interp/program.go CompileAST/Execute), tied by behavioural correspondence on every generated session (status, value and output of every evaluation, final globals, pointer targets)"],
     level_text="Coq theorems (unbounded: all programs of the model language, all cuts of declarations and statements, all call depths, all chunk lists) about an executable model of yaegi's session mechanics (Y: persistent package scope, two-phase compile of each chunk with static binding of callees, main appended to the init list whenever the scope holds one, genGlobalVarDecl's per-chunk dependency check) and of the contract (G: items take effect in order, calls run the current definition, a chunk declaring main runs it once); Y is tied to the implementation and G to compiled Go on every run by correspondence evaluated inside Coq, through the entry points Eval, Compile+Execute, CompileAST+Execute, EvalPath (disk and MapFS) and Compile-all-then-Execute-all.",
